@@ -25,6 +25,13 @@ namespace {
     int base_val() const { return 7; }
   };
   struct Derived : Base {};
+  // types of the cross-thread callbacks: the conversion Derived -> Base is registered before the run starts
+  struct CbBase {
+    int v = 0;
+    virtual ~CbBase() = default;
+  };
+  struct CbDerived : CbBase {};
+
   struct ConvA {
     int v;
   };
@@ -102,7 +109,7 @@ namespace {
         J op = J::object();
         const int a = int(plan.below(uint64_t(T)));
         op["a"] = J(a);
-        const int kind = int(plan.below(26));
+        const int kind = int(plan.below(27));
         switch (kind) {
         case 0:
           op["k"] = J("shared");
@@ -239,6 +246,13 @@ namespace {
           op["k"] = J("readtype");
           op["j"] = J(int(plan.below(2)));
           break;
+        case 26:
+          // a std::function made from a script function by the thread that built the engine, invoked by an actor;
+          // the call needs a registered conversion, whose per-thread bookkeeping must be the CALLING thread's
+          op["k"] = J("callcb");
+          op["i"] = J(int(plan.below(2)));
+          op["v"] = J(value_ctr++);
+          break;
         case 25:
           if (!on(8)) continue;
           op["k"] = J("usebad"); // use() of a file whose evaluation throws half-way
@@ -263,6 +277,31 @@ namespace {
         front.push(mk(x, "use"));
         front.push(mk(y, "use"));
         front.push(mk(y, "calluse"));
+        for (size_t i = 0; i < ops.size(); ++i) {
+          front.push(ops[i]);
+        }
+        ops = front;
+      }
+      // directed scenario: every actor opens by defining a different overload of the same name, then calls all of them
+      if (plan.chance(200)) {
+        J front = J::array();
+        const int j = int(plan.below(2));
+        for (int a = 0; a < T && a < 5; ++a) {
+          J op = J::object();
+          op["a"] = J(a);
+          op["k"] = J("ovdef");
+          op["j"] = J(j);
+          op["t"] = J(a);
+          front.push(op);
+        }
+        for (int a = 0; a < T && a < 5; ++a) {
+          J op = J::object();
+          op["a"] = J(int(plan.below(uint64_t(T))));
+          op["k"] = J("ovcall");
+          op["j"] = J(j);
+          op["t"] = J(a);
+          front.push(op);
+        }
         for (size_t i = 0; i < ops.size(); ++i) {
           front.push(ops[i]);
         }
@@ -300,15 +339,26 @@ namespace {
       fl_reset();
       fl_track_prefix(dir.c_str());
       std::unique_ptr<Engine> chai;
+      std::function<int(const CbDerived &)> cbs[2];
+      auto make_callbacks = [&]() {
+        chai->add(user_type<CbBase>(), "CbBase");
+        chai->add(user_type<CbDerived>(), "CbDerived");
+        chai->add(base_class<CbBase, CbDerived>());
+        chai->add(fun([](const CbBase &b) { return b.v; }), "cb_takes_base");
+        cbs[0] = chai->eval<std::function<int(const CbDerived &)>>("fun(d) { return cb_takes_base(d) }");
+        cbs[1] = chai->eval<std::function<int(const CbDerived &)>>("fun(CbBase b) { var q = cb_takes_base(b); return q }");
+      };
       const int creator = int(plan.at("creator").num(0));
       if (creator == 0) {
         chai = make_engine({dir});
+        make_callbacks();
       } else {
         std::thread maker([&]() {
           chai = make_engine({dir});
           if (creator == 2) {
             chai->eval("var x = -11; var y = -12; var z = -13;"); // locals of a thread that will be gone
           }
+          make_callbacks();
         });
         maker.join();
         r.counters["probe_engine_created_by_a_thread_that_ended"] += 1;
@@ -484,6 +534,14 @@ namespace {
                   out = "!" + describe_current_exception(&e);
                 }
               }
+            } else if (k == "callcb") {
+              try {
+                CbDerived d;
+                d.v = int(num("v"));
+                out = "=i:" + std::to_string(cbs[size_t(num("i")) % 2](d));
+              } catch (...) {
+                out = "!" + describe_current_exception(&e);
+              }
             } else if (k == "calluse") {
               out = eval_show(e, "from_use(1)");
             } else if (k == "getstate") {
@@ -645,6 +703,9 @@ namespace {
         } else if (k == "usebad") {
           ++usebad_ops;
           if (out != "!Boxed_Value|s:bad file") bad("use() of a file that throws must deliver the file's exception");
+        } else if (k == "callcb") {
+          if (out != "=i:" + std::to_string(op.at("v").num())) bad("callback made from a script function, invoked by another thread");
+          r.counters["probe_callback_invoked_by_another_thread_than_its_maker"] += 1;
         } else if (k == "calluse") {
           read_int(0);
         } else if (k == "getstate") {
